@@ -14,14 +14,14 @@ import (
 // C14 — scalar multiplication against the integer multiple computed by the
 // reference model (affine double-and-add on math/big).
 
-type combScheme struct {
+type zvCombScheme struct {
 	name           string
 	w, sub, it, rm int
 	f              func([]byte) (*SM2Point, error)
 }
 
-func schemes() []combScheme {
-	return []combScheme{
+func zvSchemes() []zvCombScheme {
+	return []zvCombScheme{
 		{"6-3-14(ScalarBaseMult)", 6, 3, 14, 4, ScalarBaseMult},
 		{"6-3-14", 6, 3, 14, 4, scalarBaseMult_SkipBitExtraction_6_3_14},
 		{"5-3-17", 5, 3, 17, 1, scalarBaseMult_SkipBitExtraction_5_3_17},
@@ -31,7 +31,7 @@ func schemes() []combScheme {
 }
 
 // windowScalar places value v into comb window (j,i) of the scheme.
-func (s combScheme) windowScalar(j, i, v int) *big.Int {
+func (s zvCombScheme) windowScalar(j, i, v int) *big.Int {
 	k := new(big.Int)
 	for b := 0; b < s.w; b++ {
 		if v>>uint(b)&1 == 1 {
@@ -50,9 +50,9 @@ func TestVerifC14(t *testing.T) {
 	}
 	rng := hk.NewRNG(hk.Seed(), "c14")
 	n := ref.SM2N
-	specials := []*big.Int{bi(0), bi(1), bi(2), bi(3), bi(15), bi(16), new(big.Int).Sub(n, bi(1)), new(big.Int).Set(n), new(big.Int).Add(n, bi(1)),
-		new(big.Int).Sub(n, bi(2)), new(big.Int).Lsh(bi(1), 255), new(big.Int).Sub(b256, bi(1)), new(big.Int).Sub(b256, bi(2)),
-		new(big.Int).Rsh(n, 1), new(big.Int).Add(new(big.Int).Rsh(n, 1), bi(1))}
+	specials := []*big.Int{zvBi(0), zvBi(1), zvBi(2), zvBi(3), zvBi(15), zvBi(16), new(big.Int).Sub(n, zvBi(1)), new(big.Int).Set(n), new(big.Int).Add(n, zvBi(1)),
+		new(big.Int).Sub(n, zvBi(2)), new(big.Int).Lsh(zvBi(1), 255), new(big.Int).Sub(zvB256, zvBi(1)), new(big.Int).Sub(zvB256, zvBi(2)),
+		new(big.Int).Rsh(n, 1), new(big.Int).Add(new(big.Int).Rsh(n, 1), zvBi(1))}
 
 	// ------------------------------------------------------------ base point
 	type bcase struct {
@@ -61,7 +61,7 @@ func TestVerifC14(t *testing.T) {
 		cls string
 	}
 	var bcs []bcase
-	ss := schemes()
+	ss := zvSchemes()
 	for si, s := range ss {
 		if si == 1 {
 			continue // same function as the public entry point
@@ -78,14 +78,14 @@ func TestVerifC14(t *testing.T) {
 			}
 		}
 		for v := 0; v < 1<<uint(s.rm); v++ {
-			bcs = append(bcs, bcase{si, bi(int64(v)), s.name + ":remainder"})
+			bcs = append(bcs, bcase{si, zvBi(int64(v)), s.name + ":remainder"})
 		}
 		// two windows at once (random pairs) + remainder
 		for q := 0; q < hk.N(150, 3000); q++ {
 			k := s.windowScalar(rng.Intn(s.sub), rng.Intn(s.it), 1+rng.Intn(1<<uint(s.w)-1))
 			k.Or(k, s.windowScalar(rng.Intn(s.sub), rng.Intn(s.it), 1+rng.Intn(1<<uint(s.w)-1)))
 			if s.rm > 0 {
-				k.Or(k, bi(int64(rng.Intn(1<<uint(s.rm)))))
+				k.Or(k, zvBi(int64(rng.Intn(1<<uint(s.rm)))))
 			}
 			bcs = append(bcs, bcase{si, k, s.name + ":two-windows"})
 		}
@@ -120,9 +120,9 @@ func TestVerifC14(t *testing.T) {
 			return
 		}
 		want := ref.BaseMulFast(c.k)
-		g, _ := toRef(got)
+		g, _ := zvToRef(got)
 		if !g.Eq(want) {
-			d["got"], d["want"] = ptHex(g), ptHex(want)
+			d["got"], d["want"] = zvPtHex(g), zvPtHex(want)
 			r.Violation("basemult-wrong:"+c.cls, d)
 		}
 		r.Eval("base:" + c.cls)
@@ -139,7 +139,7 @@ func TestVerifC14(t *testing.T) {
 		if p {
 			r.Violation("basemult-panics:wrong-length", hk.D{"k": hk.Hex(kb), "panic": msg})
 		} else if err == nil {
-			g, _ := toRef(got)
+			g, _ := zvToRef(got)
 			if !g.Eq(ref.BaseMul(new(big.Int).SetBytes(kb))) {
 				r.Violation("basemult-wrong:wrong-length", hk.D{"k": hk.Hex(kb)})
 			}
@@ -150,13 +150,13 @@ func TestVerifC14(t *testing.T) {
 	// ------------------------------------------------------------ variable point
 	var pts []ref.Pt
 	for m := int64(1); m <= 16; m++ {
-		pts = append(pts, ref.BaseMul(bi(m)))
+		pts = append(pts, ref.BaseMul(zvBi(m)))
 	}
-	pts = append(pts, ref.G().Neg(), ref.BaseMul(new(big.Int).Sub(n, bi(2))))
+	pts = append(pts, ref.G().Neg(), ref.BaseMul(new(big.Int).Sub(n, zvBi(2))))
 	for q := 0; q < hk.N(3, 12); q++ {
-		pts = append(pts, ref.BaseMulFast(randScalarI(rng)))
+		pts = append(pts, ref.BaseMulFast(zvRandScalarI(rng)))
 	}
-	pts = append(pts, patternedPoints(rng, hk.N(8, 40))...) // affine x with carry-critical internal limbs
+	pts = append(pts, zvPatternedPoints(rng, hk.N(8, 40))...) // affine x with carry-critical internal limbs
 	type vcase struct {
 		P   ref.Pt
 		lam *big.Int
@@ -171,7 +171,7 @@ func TestVerifC14(t *testing.T) {
 				if (pi+pos+v)%hk.N(12, 2) != 0 {
 					continue
 				}
-				k := new(big.Int).Lsh(bi(int64(v)), uint(4*pos))
+				k := new(big.Int).Lsh(zvBi(int64(v)), uint(4*pos))
 				vcs = append(vcs, vcase{P, nil, ref.B32(k), fmt.Sprintf("nibble(pos=%d)", pos)})
 			}
 		}
@@ -195,17 +195,17 @@ func TestVerifC14(t *testing.T) {
 	for m := int64(1); m <= 16; m++ {
 		for w := int64(1); w < 16; w++ {
 			for _, sign := range []int64{1, -1} {
-				num := new(big.Int).Add(new(big.Int).Mul(bi(m), n), bi(sign*w))
-				if new(big.Int).Mod(num, bi(16)).Sign() != 0 {
+				num := new(big.Int).Add(new(big.Int).Mul(zvBi(m), n), zvBi(sign*w))
+				if new(big.Int).Mod(num, zvBi(16)).Sign() != 0 {
 					continue
 				}
 				c16 := num // = 16c
-				k := new(big.Int).Add(c16, bi(w))
+				k := new(big.Int).Add(c16, zvBi(w))
 				t := uint(rng.Intn(3))
 				k.Lsh(k, 4*t)
 				if t > 0 {
 					k.Add(k, new(big.Int).SetBytes(rng.Bytes(1)))
-					k.Mod(k, new(big.Int).Lsh(bi(1), 4*t+270)) // keep it; the low digits are junk
+					k.Mod(k, new(big.Int).Lsh(zvBi(1), 4*t+270)) // keep it; the low digits are junk
 				}
 				cls := "window-collision:acc=addend"
 				if sign < 0 {
@@ -216,31 +216,31 @@ func TestVerifC14(t *testing.T) {
 		}
 	}
 	// infinity as the point
-	vcs = append(vcs, vcase{ref.Inf(), bi(5), rng.Bytes(32), "P=inf"}, vcase{ref.Inf(), nil, ref.B32(bi(0)), "P=inf"})
-	r.Sample(hk.D{"op": "ScalarMult", "P": ptHex(vcs[3].P), "k": hk.Hex(vcs[3].k), "class": vcs[3].cls})
+	vcs = append(vcs, vcase{ref.Inf(), zvBi(5), rng.Bytes(32), "P=inf"}, vcase{ref.Inf(), nil, ref.B32(zvBi(0)), "P=inf"})
+	r.Sample(hk.D{"op": "ScalarMult", "P": zvPtHex(vcs[3].P), "k": hk.Hex(vcs[3].k), "class": vcs[3].cls})
 	hk.Parallel(len(vcs), func(i int) {
 		if !hk.InShard(i) {
 			return
 		}
 		c := vcs[i]
-		in := fromRef(c.P, c.lam)
-		snapshot, _ := toRef(in)
+		in := zvFromRef(c.P, c.lam)
+		snapshot, _ := zvToRef(in)
 		var got *SM2Point
 		var err error
 		p, msg, _, _ := hk.Try(func() { got, err = ScalarMult(in, c.k) })
-		d := hk.D{"P": ptHex(c.P), "k": hk.Hex(c.k)}
+		d := hk.D{"P": zvPtHex(c.P), "k": hk.Hex(c.k)}
 		if p || err != nil {
 			d["panic"], d["err"] = msg, fmt.Sprint(err)
 			r.Violation("scalarmult-fails:"+c.cls, d)
 			return
 		}
 		want := c.P.Mul(new(big.Int).SetBytes(c.k))
-		g, _ := toRef(got)
+		g, _ := zvToRef(got)
 		if !g.Eq(want) {
-			d["got"], d["want"] = ptHex(g), ptHex(want)
+			d["got"], d["want"] = zvPtHex(g), zvPtHex(want)
 			r.Violation("scalarmult-wrong:"+c.cls, d)
 		}
-		if after, _ := toRef(in); !after.Eq(snapshot) {
+		if after, _ := zvToRef(in); !after.Eq(snapshot) {
 			r.Violation("scalarmult-modifies-input-point", d)
 		}
 		r.Eval("var:" + c.cls)
@@ -255,12 +255,12 @@ func TestVerifC14(t *testing.T) {
 	var mcs []mcase
 	nafPatterns := func() []*big.Int {
 		var out []*big.Int
-		one := bi(1)
+		one := zvBi(1)
 		for start := 0; start < 256; start += 7 {
 			for ln := 1; ln <= 12; ln += 2 {
 				v := new(big.Int).Sub(new(big.Int).Lsh(one, uint(ln)), one)
 				v.Lsh(v, uint(start))
-				v.Mod(v, b256)
+				v.Mod(v, zvB256)
 				out = append(out, v)
 			}
 		}
@@ -268,9 +268,9 @@ func TestVerifC14(t *testing.T) {
 		for i := 0; i < 256; i += 2 {
 			alt.SetBit(alt, i, 1)
 		}
-		out = append(out, alt, new(big.Int).Lsh(alt, 1).Mod(new(big.Int).Lsh(alt, 1), b256))
+		out = append(out, alt, new(big.Int).Lsh(alt, 1).Mod(new(big.Int).Lsh(alt, 1), zvB256))
 		// carries out of bit 255
-		out = append(out, new(big.Int).Sub(b256, bi(1)), new(big.Int).Sub(b256, bi(8)), new(big.Int).Sub(b256, new(big.Int).Lsh(one, 200)))
+		out = append(out, new(big.Int).Sub(zvB256, zvBi(1)), new(big.Int).Sub(zvB256, zvBi(8)), new(big.Int).Sub(zvB256, new(big.Int).Lsh(one, 200)))
 		return out
 	}()
 	for _, s := range nafPatterns {
@@ -293,7 +293,7 @@ func TestVerifC14(t *testing.T) {
 		P := pts[j-1]
 		s := new(big.Int).SetBytes(rng.Bytes(32))
 		s.Mod(s, n)
-		sj := new(big.Int).Mul(s, bi(j))
+		sj := new(big.Int).Mul(s, zvBi(j))
 		sj.Mod(sj, n)
 		switch q % 4 {
 		case 0:
@@ -301,9 +301,9 @@ func TestVerifC14(t *testing.T) {
 		case 1:
 			mcs = append(mcs, mcase{sj, s, P, "collide:equal-halves"}) // [g]G = [s]P (doubling)
 		case 2:
-			mcs = append(mcs, mcase{ref.ModN(new(big.Int).Sub(bi(1), sj)), s, P, "collide:sum=G"})
+			mcs = append(mcs, mcase{ref.ModN(new(big.Int).Sub(zvBi(1), sj)), s, P, "collide:sum=G"})
 		default:
-			mcs = append(mcs, mcase{bi(j), bi(int64(1 + rng.Intn(15))), P, "collide:small"})
+			mcs = append(mcs, mcase{zvBi(j), zvBi(int64(1 + rng.Intn(15))), P, "collide:small"})
 		}
 	}
 	// PARTIAL-sum collisions inside the schedule: P = +-T where T = [t]G is an entry of the comb table, g has
@@ -322,7 +322,7 @@ func TestVerifC14(t *testing.T) {
 				T := ref.BaseMulFast(t)
 				for variant := 0; variant < 4; variant++ {
 					g := new(big.Int).Lsh(t, row)
-					sc := new(big.Int).Lsh(bi(1), row)
+					sc := new(big.Int).Lsh(zvBi(1), row)
 					P := T
 					cls := "partial-collision:acc=addend"
 					if variant%2 == 1 {
@@ -357,7 +357,7 @@ func TestVerifC14(t *testing.T) {
 							t.SetBit(t, int(4+j*14+b*42), 1)
 						}
 					}
-					inv := ref.InvN(new(big.Int).Lsh(bi(1), k))
+					inv := ref.InvN(new(big.Int).Lsh(zvBi(1), k))
 					for _, neg := range []bool{false, true} {
 						a := ref.ModN(new(big.Int).Mul(t, inv))
 						cls := "partial-collision:earlier-digit,acc=addend"
@@ -369,7 +369,7 @@ func TestVerifC14(t *testing.T) {
 						if (row+k+j)%2 == 1 && row > 0 {
 							g.SetBit(g, int(4+uint(rng.Intn(3))*14+uint(rng.Intn(6))*42+uint(rng.Intn(int(row)))), 1)
 						}
-						mcs = append(mcs, mcase{ref.ModN(g), new(big.Int).Lsh(bi(1), row+k), ref.BaseMulFast(a), cls})
+						mcs = append(mcs, mcase{ref.ModN(g), new(big.Int).Lsh(zvBi(1), row+k), ref.BaseMulFast(a), cls})
 					}
 				}
 			}
@@ -384,42 +384,42 @@ func TestVerifC14(t *testing.T) {
 		g, sc := new(big.Int).SetBytes(rng.Bytes(32)), new(big.Int).SetBytes(rng.Bytes(32))
 		switch q % 8 {
 		case 1:
-			g = bi(0)
+			g = zvBi(0)
 		case 2:
-			sc = bi(0)
+			sc = zvBi(0)
 		case 3:
-			g = bi(1)
+			g = zvBi(1)
 		case 4:
-			sc = bi(1)
+			sc = zvBi(1)
 		case 5:
 			g = new(big.Int).Set(ref.SM2N)
 		case 6:
-			sc = new(big.Int).Sub(ref.SM2N, bi(1))
+			sc = new(big.Int).Sub(ref.SM2N, zvBi(1))
 		}
 		mcs = append(mcs, mcase{g, sc, ref.Inf(), "P=infinity,g-and-s-independent"})
 	}
-	r.Sample(hk.D{"op": "ScalarMixedMult_Unsafe", "g": hk.Hex(ref.B32(mcs[5].g)), "s": hk.Hex(ref.B32(mcs[5].s)), "P": ptHex(mcs[5].P)})
+	r.Sample(hk.D{"op": "ScalarMixedMult_Unsafe", "g": hk.Hex(ref.B32(mcs[5].g)), "s": hk.Hex(ref.B32(mcs[5].s)), "P": zvPtHex(mcs[5].P)})
 	hk.Parallel(len(mcs), func(i int) {
 		if !hk.InShard(i) {
 			return
 		}
 		c := mcs[i]
 		lr := hk.NewRNG(hk.Seed(), fmt.Sprintf("c14m/%d", i))
-		in := fromRef(c.P, new(big.Int).SetBytes(lr.Bytes(20)))
+		in := zvFromRef(c.P, new(big.Int).SetBytes(lr.Bytes(20)))
 		var got *SM2Point
 		var err error
 		gb, sb := ref.B32(c.g), ref.B32(c.s)
 		p, msg, _, _ := hk.Try(func() { got, err = ScalarMixedMult_Unsafe(gb, in, sb) })
-		d := hk.D{"g": hk.Hex(gb), "s": hk.Hex(sb), "P": ptHex(c.P)}
+		d := hk.D{"g": hk.Hex(gb), "s": hk.Hex(sb), "P": zvPtHex(c.P)}
 		if p || err != nil {
 			d["panic"], d["err"] = msg, fmt.Sprint(err)
 			r.Violation("mixedmult-fails:"+c.cls, d)
 			return
 		}
 		want := ref.BaseMulFast(c.g).Add(c.P.Mul(c.s))
-		g, _ := toRef(got)
+		g, _ := zvToRef(got)
 		if !g.Eq(want) {
-			d["got"], d["want"] = ptHex(g), ptHex(want)
+			d["got"], d["want"] = zvPtHex(g), zvPtHex(want)
 			r.Violation("mixedmult-wrong:"+c.cls, d)
 		}
 		r.Eval("mixed:" + c.cls)
@@ -429,12 +429,12 @@ func TestVerifC14(t *testing.T) {
 	// package must still multiply correctly and a fresh NewFromXY point must still be the affine point it was given
 	for h := 0; h < hk.N(40, 400); h++ {
 		lr := hk.NewRNG(hk.Seed(), fmt.Sprintf("c14xy/%d", h))
-		A, B := ref.BaseMulFast(randScalarI(lr)), ref.BaseMulFast(randScalarI(lr))
-		qa, qb := fromRef(A, bi(1)), fromRef(B, new(big.Int).SetBytes(lr.Bytes(9)))
+		A, B := ref.BaseMulFast(zvRandScalarI(lr)), ref.BaseMulFast(zvRandScalarI(lr))
+		qa, qb := zvFromRef(A, zvBi(1)), zvFromRef(B, new(big.Int).SetBytes(lr.Bytes(9)))
 		xr, yr := *qa.x.GetRaw(), *qa.y.GetRaw()
 		n := NewFromXY(&xr, &yr)
-		if g, _ := toRef(n); !g.Eq(A) {
-			r.Violation("newfromxy-is-not-the-given-point", hk.D{"point": ptHex(A), "got": ptHex(g)})
+		if g, _ := zvToRef(n); !g.Eq(A) {
+			r.Violation("newfromxy-is-not-the-given-point", hk.D{"point": zvPtHex(A), "got": zvPtHex(g)})
 			break
 		}
 		shadow := A
@@ -463,28 +463,28 @@ func TestVerifC14(t *testing.T) {
 				hist = append(hist, "n.Select(Q,n,1)")
 			}
 		}
-		if g, _ := toRef(n); !g.Eq(shadow) {
-			r.Violation("newfromxy-point-wrong-after-in-place-updates", hk.D{"history": hist, "got": ptHex(g), "want": ptHex(shadow)})
+		if g, _ := zvToRef(n); !g.Eq(shadow) {
+			r.Violation("newfromxy-point-wrong-after-in-place-updates", hk.D{"history": hist, "got": zvPtHex(g), "want": zvPtHex(shadow)})
 			break
 		}
 		// the two arrays the point was built FROM are the caller's (the routines pass entries of the precomputed tables):
 		// updating the point in place must not write through to them
 		if xr != *qa.x.GetRaw() || yr != *qa.y.GetRaw() {
-			r.Violation("updating-a-newfromxy-point-rewrites-the-arrays-it-was-built-from", hk.D{"history": hist, "point": ptHex(A)})
+			r.Violation("updating-a-newfromxy-point-rewrites-the-arrays-it-was-built-from", hk.D{"history": hist, "point": zvPtHex(A)})
 			break
 		}
 		k := lr.Bytes(32)
 		kb, _ := ScalarBaseMult(k)
 		gb, sb := lr.Bytes(32), lr.Bytes(32)
-		mm, _ := ScalarMixedMult_Unsafe(gb, fromRef(B, bi(1)), sb)
+		mm, _ := ScalarMixedMult_Unsafe(gb, zvFromRef(B, zvBi(1)), sb)
 		xr2, yr2 := *qa.x.GetRaw(), *qa.y.GetRaw()
 		fresh := NewFromXY(&xr2, &yr2)
-		g1, _ := toRef(kb)
-		g2, _ := toRef(mm)
-		g3, _ := toRef(fresh)
+		g1, _ := zvToRef(kb)
+		g2, _ := zvToRef(mm)
+		g3, _ := zvToRef(fresh)
 		if kb == nil || mm == nil || !g1.Eq(ref.BaseMulFast(ref.ModN(new(big.Int).SetBytes(k)))) ||
 			!g2.Eq(ref.BaseMulFast(ref.ModN(new(big.Int).SetBytes(gb))).Add(B.Mul(new(big.Int).SetBytes(sb)))) || !g3.Eq(A) {
-			r.Violation("package-wrong-after-a-newfromxy-point-was-updated-in-place", hk.D{"history": hist, "base_mult_ok": kb != nil && g1.Eq(ref.BaseMulFast(ref.ModN(new(big.Int).SetBytes(k)))), "fresh_newfromxy": ptHex(g3), "expected": ptHex(A)})
+			r.Violation("package-wrong-after-a-newfromxy-point-was-updated-in-place", hk.D{"history": hist, "base_mult_ok": kb != nil && g1.Eq(ref.BaseMulFast(ref.ModN(new(big.Int).SetBytes(k)))), "fresh_newfromxy": zvPtHex(g3), "expected": zvPtHex(A)})
 			break
 		}
 		r.Eval("newfromxy-points-belong-to-the-caller")
@@ -496,8 +496,8 @@ func TestVerifC14(t *testing.T) {
 		lr := hk.NewRNG(hk.Seed(), fmt.Sprintf("c14obj/%d", h))
 		A := pts[lr.Intn(len(pts))]
 		B := pts[lr.Intn(len(pts))]
-		P := fromRef(A, new(big.Int).SetBytes(lr.Bytes(12)))
-		Q := fromRef(B, new(big.Int).SetBytes(lr.Bytes(12)))
+		P := zvFromRef(A, new(big.Int).SetBytes(lr.Bytes(12)))
+		Q := zvFromRef(B, new(big.Int).SetBytes(lr.Bytes(12)))
 		shadow := A
 		var hist []string
 		for step := 0; step < 5; step++ {
@@ -512,8 +512,8 @@ func TestVerifC14(t *testing.T) {
 				break
 			}
 			want := shadow.Mul(new(big.Int).SetBytes(k))
-			if g, _ := toRef(got); !g.Eq(want) {
-				r.Violation("object-history:scalarmult-wrong-after-in-place-update", hk.D{"history": hist, "P": ptHex(shadow), "k": hk.Hex(k), "got": ptHex(g), "want": ptHex(want)})
+			if g, _ := zvToRef(got); !g.Eq(want) {
+				r.Violation("object-history:scalarmult-wrong-after-in-place-update", hk.D{"history": hist, "P": zvPtHex(shadow), "k": hk.Hex(k), "got": zvPtHex(g), "want": zvPtHex(want)})
 				break
 			}
 			// ... and as the variable point of the double-scalar multiplication
@@ -526,8 +526,8 @@ func TestVerifC14(t *testing.T) {
 					r.Violation("object-history:mixedmult-error", hk.D{"history": hist, "err": err2.Error()})
 					break
 				}
-				if g2, _ := toRef(got2); !g2.Eq(want2) {
-					r.Violation("object-history:mixedmult-wrong-after-in-place-update", hk.D{"history": hist, "P": ptHex(shadow), "g": hk.Hex(gb), "s": hk.Hex(sb), "got": ptHex(g2), "want": ptHex(want2)})
+				if g2, _ := zvToRef(got2); !g2.Eq(want2) {
+					r.Violation("object-history:mixedmult-wrong-after-in-place-update", hk.D{"history": hist, "P": zvPtHex(shadow), "g": hk.Hex(gb), "s": hk.Hex(sb), "got": zvPtHex(g2), "want": zvPtHex(want2)})
 					break
 				}
 			}
@@ -568,7 +568,7 @@ func TestVerifC14(t *testing.T) {
 				tbl := TransformPrecomputed(&pre, 3)
 				bits := byte(1 + lr.Intn(3))
 				P.MultiSelectXYZ(&tbl, 3, bits)
-				shadow = B.Mul(bi(int64(bits)))
+				shadow = B.Mul(zvBi(int64(bits)))
 				hist = append(hist, fmt.Sprintf("P.MultiSelectXYZ(Q-table,%d)", bits))
 			}
 		}
@@ -580,24 +580,24 @@ func TestVerifC14(t *testing.T) {
 	// point) or with another result, later multiplications go wrong: judged by canaries after each scribble.
 	{
 		lr := hk.NewRNG(hk.Seed(), "c14results")
-		Pm := ref.BaseMulFast(randScalarI(lr))
-		garbage := func() *SM2Point { return fromRef(ref.BaseMulFast(randScalarI(lr)), randScalarI(lr)) }
+		Pm := ref.BaseMulFast(zvRandScalarI(lr))
+		garbage := func() *SM2Point { return zvFromRef(ref.BaseMulFast(zvRandScalarI(lr)), zvRandScalarI(lr)) }
 		canary := func(what string, hist []string) bool {
-			k := ref.B32(randScalarI(lr))
+			k := ref.B32(zvRandScalarI(lr))
 			g1, e1 := ScalarBaseMult(k)
-			g2, e2 := ScalarMixedMult_Unsafe(k, fromRef(Pm, bi(1)), k)
+			g2, e2 := ScalarMixedMult_Unsafe(k, zvFromRef(Pm, zvBi(1)), k)
 			g3, e3 := ScalarMult(NewSM2Generator(), k)
 			kI := ref.Int(k)
 			w1 := ref.BaseMulFast(kI)
 			w2 := w1.Add(Pm.Mul(kI))
 			bad := e1 != nil || e2 != nil || e3 != nil
 			if !bad {
-				a, _ := toRef(g1)
-				b, _ := toRef(g2)
-				c, _ := toRef(g3)
+				a, _ := zvToRef(g1)
+				b, _ := zvToRef(g2)
+				c, _ := zvToRef(g3)
 				bad = !a.Eq(w1) || !b.Eq(w2) || !c.Eq(w1)
 			}
-			if g, _ := toRef(sm2G); !g.Eq(ref.G()) || rawBig(sm2ElementOne).Cmp(bi(1)) != 0 || rawBig(sm2B).Cmp(ref.SM2B) != 0 {
+			if g, _ := zvToRef(sm2G); !g.Eq(ref.G()) || zvRawBig(sm2ElementOne).Cmp(zvBi(1)) != 0 || zvRawBig(sm2B).Cmp(ref.SM2B) != 0 {
 				bad = true
 			}
 			if bad {
@@ -605,7 +605,7 @@ func TestVerifC14(t *testing.T) {
 			}
 			return !bad
 		}
-		small := [][]byte{make([]byte, 32), ref.B32(bi(1)), ref.B32(bi(2)), ref.B32(bi(7)), ref.B32(bi(15)), ref.B32(bi(16)), ref.B32(bi(63)), ref.B32(new(big.Int).Lsh(bi(1), 14)), ref.B32(new(big.Int).Lsh(bi(5), 42)), ref.B32(randScalarI(lr)), ref.B32(n)}
+		small := [][]byte{make([]byte, 32), ref.B32(zvBi(1)), ref.B32(zvBi(2)), ref.B32(zvBi(7)), ref.B32(zvBi(15)), ref.B32(zvBi(16)), ref.B32(zvBi(63)), ref.B32(new(big.Int).Lsh(zvBi(1), 14)), ref.B32(new(big.Int).Lsh(zvBi(5), 42)), ref.B32(zvRandScalarI(lr)), ref.B32(n)}
 		type producer struct {
 			name string
 			f    func(a, b []byte) (*SM2Point, error)
@@ -620,9 +620,9 @@ func TestVerifC14(t *testing.T) {
 			{"scheme-5-3-17", func(a, b []byte) (*SM2Point, error) { return scalarBaseMult_SkipBitExtraction_5_3_17(a) }, wBase},
 			{"scheme-4-2-32", func(a, b []byte) (*SM2Point, error) { return scalarBaseMult_SkipBitExtraction_4_2_32(a) }, wBase},
 			{"scheme-7-3-12", func(a, b []byte) (*SM2Point, error) { return scalarBaseMult_SkipBitExtraction_7_3_12(a) }, wBase},
-			{"ScalarMult(P)", func(a, b []byte) (*SM2Point, error) { return ScalarMult(fromRef(Pm, bi(1)), a) }, wVarP},
+			{"ScalarMult(P)", func(a, b []byte) (*SM2Point, error) { return ScalarMult(zvFromRef(Pm, zvBi(1)), a) }, wVarP},
 			{"ScalarMult(G)", func(a, b []byte) (*SM2Point, error) { return ScalarMult(NewSM2Generator(), a) }, wBase},
-			{"ScalarMixedMult(g,P,s)", func(a, b []byte) (*SM2Point, error) { return ScalarMixedMult_Unsafe(a, fromRef(Pm, bi(1)), b) }, wMixP},
+			{"ScalarMixedMult(g,P,s)", func(a, b []byte) (*SM2Point, error) { return ScalarMixedMult_Unsafe(a, zvFromRef(Pm, zvBi(1)), b) }, wMixP},
 			{"ScalarMixedMult(g,G,s)", func(a, b []byte) (*SM2Point, error) { return ScalarMixedMult_Unsafe(a, NewSM2Generator(), b) }, wMixG},
 			{"NewSM2Generator", func(a, b []byte) (*SM2Point, error) { return NewSM2Generator(), nil }, func(a, b *big.Int) ref.Pt { return ref.G() }},
 			{"NewSM2Point", func(a, b []byte) (*SM2Point, error) { return NewSM2Point(), nil }, func(a, b *big.Int) ref.Pt { return ref.Inf() }},
@@ -648,21 +648,21 @@ func TestVerifC14(t *testing.T) {
 					// operations and must behave as the group element it stands for
 					{
 						wv := pr.want(ref.Int(a), ref.Int(b))
-						Qm := ref.BaseMulFast(randScalarI(lr))
-						kk := ref.B32(randScalarI(lr))
-						s1, _ := toRef(NewSM2Point().Add(fromRef(Qm, randScalarI(lr)), ret))
-						s2, _ := toRef(NewSM2Point().Add(ret, fromRef(Qm, bi(1))))
+						Qm := ref.BaseMulFast(zvRandScalarI(lr))
+						kk := ref.B32(zvRandScalarI(lr))
+						s1, _ := zvToRef(NewSM2Point().Add(zvFromRef(Qm, zvRandScalarI(lr)), ret))
+						s2, _ := zvToRef(NewSM2Point().Add(ret, zvFromRef(Qm, zvBi(1))))
 						g3, e3 := ScalarMixedMult_Unsafe(kk, ret, kk)
 						g4, e4 := ScalarMult(ret, kk)
 						okv := e3 == nil && e4 == nil
 						if okv {
-							v0, _ := toRef(ret)
-							v3, _ := toRef(g3)
-							v4, _ := toRef(g4)
+							v0, _ := zvToRef(ret)
+							v3, _ := zvToRef(g3)
+							v4, _ := zvToRef(g4)
 							okv = v0.Eq(wv) && s1.Eq(Qm.Add(wv)) && s2.Eq(Qm.Add(wv)) && v3.Eq(ref.BaseMulFast(ref.Int(kk)).Add(wv.Mul(ref.Int(kk)))) && v4.Eq(wv.Mul(ref.Int(kk)))
 						}
 						if !okv {
-							r.Violation("returned-point-misbehaves-as-an-operand:"+pr.name, hk.D{"history": hist, "value_by_model": ptHex(wv), "infinity": wv.Inf})
+							r.Violation("returned-point-misbehaves-as-an-operand:"+pr.name, hk.D{"history": hist, "value_by_model": zvPtHex(wv), "infinity": wv.Inf})
 							break outer
 						}
 					}
@@ -694,7 +694,7 @@ func TestVerifC14(t *testing.T) {
 		r.EvalN("results-belong-to-the-caller", nOK)
 	}
 	// package-level state must be what it was
-	if g, _ := toRef(sm2G); !g.Eq(ref.G()) || rawBig(sm2ElementOne).Cmp(bi(1)) != 0 || rawBig(sm2B).Cmp(ref.SM2B) != 0 {
+	if g, _ := zvToRef(sm2G); !g.Eq(ref.G()) || zvRawBig(sm2ElementOne).Cmp(zvBi(1)) != 0 || zvRawBig(sm2B).Cmp(ref.SM2B) != 0 {
 		r.Violation("package-state-corrupted-after-scalar-multiplications", hk.D{})
 	}
 	r.Eval("package-state-after-workload")
